@@ -1011,12 +1011,12 @@ theorem bPowRes_par {s : St α} (hs : StoreOKB V s) (a n : Nat) :
 
 omit h in
 /-- the bivariate ARITHMETIC operations: constructors `nats ints zero embed regs` (not the raw
-    decoder `map`, not `str`), arithmetic, division, equality, observers; not `bInterp` -/
+    decoder `map`, not `str`), arithmetic, division, interpolation, equality, observers -/
 def bOp : Op → Bool
   | .bCtor _ _ how _ => how == "nats" || how == "ints" || how == "zero" || how == "embed" ||
       how == "regs"
   | .bBin .. | .bUn .. | .bScale .. | .bPow .. | .bEval .. | .bCoef .. | .bLc .. | .bIn ..
-  | .bSetScale .. | .bSetCoef .. | .bQuoRem .. | .bRem .. | .bEq .. | .bObs _ => true
+  | .bSetScale .. | .bSetCoef .. | .bQuoRem .. | .bRem .. | .bInterp .. | .bEq .. | .bObs _ => true
   | _ => false
 
 omit h in
@@ -1150,6 +1150,26 @@ theorem step_bOp_agree (desc : FieldDesc) {s : St α} (hs : StoreOKB V s) (op : 
         cases o with
         | none => exact ⟨rfl, hs⟩
         | some r => exact ⟨rfl, hs.setB dst _ (hv r hq)⟩
+  case bInterp dst ring xs ys vals =>
+    simp only [step, stepE, stepU, stepB, eGet_eq' h.u, bring]
+    rw [h.bring']
+    have hp : ∀ x ∈ (xs.zip ys).map (fun (x : Nat × Nat) => ((eGet env s x.1).val, (eGet env s x.2).val)),
+        V 0 x.1 ∧ V 0 x.2 := by
+      intro x hx
+      obtain ⟨k, _, rfl⟩ := List.mem_map.1 hx
+      exact ⟨eValB_ok h hs _, eValB_ok h hs _⟩
+    have hvs : AllV (V 0) (vals.map fun k => (eGet env s k).val) := by
+      intro c hc; obtain ⟨k, _, rfl⟩ := List.mem_map.1 hc; exact eValB_ok h hs k
+    obtain ⟨e, hv⟩ := B.interpolate_par A C (h.bringOK ring) (h.u.ofNat 0 1) hp hvs
+    rw [e]
+    cases hi : BPoly.interpolate (env.bring ring)
+        ((xs.zip ys).map (fun (x : Nat × Nat) => ((eGet env s x.1).val, (eGet env s x.2).val)))
+        (vals.map fun k => (eGet env s k).val) with
+    | error k => exact ⟨rfl, hs⟩
+    | ok o =>
+      cases o with
+      | none => exact ⟨rfl, hs⟩
+      | some v => exact putB h hs dst (r := { home := ring, val := v }) rfl (hv v hi) _
   case bCtor dst ring how arg =>
     simp only [bOp, Bool.or_eq_true, beq_iff_eq] at hop
     have hR := h.bringOK ring
